@@ -93,7 +93,7 @@ def finish(ctx, explanation, exhaustive=False, extra=None):
             out.append('KNOWN-FINDING: property=%s %s [%s %s]' % (ctx.prop, k['what'], v['rule'], v['construct']))
         else:
             real.append(v)
-    evdir = os.path.join(VERIF, 'evidence')
+    evdir = os.environ.get('VERIF_EVIDENCE_DIR') or os.path.join(VERIF, 'evidence')
     os.makedirs(os.path.join(evdir, 'replay'), exist_ok=True)
     for i, v in enumerate(real):
         rp = os.path.join(evdir, 'replay', '%s-%d.json' % (ctx.prop, i))
